@@ -17,6 +17,11 @@ def Reachable (w b : Nat) (ek : ExitKind) (tk : TermKind) (f : α → Except ε 
     (src₀ : List α) (ending : Option ε) (s : St α β ε) : Prop :=
   ∃ sched, run (init w b ek tk f src₀ ending) sched = some s
 
+theorem Reachable.of_run {w b : Nat} {ek : ExitKind} {tk : TermKind} {f : α → Except ε β}
+    {src₀ : List α} {ending : Option ε} {s : St α β ε} (sched : List Tid)
+    (h : run (init w b ek tk f src₀ ending) sched = some s) : Reachable w b ek tk f src₀ ending s :=
+  ⟨sched, h⟩
+
 theorem run_append {s : St α β ε} {l₁ l₂ : List Tid} :
     run s (l₁ ++ l₂) = (run s l₁).bind (fun s' => run s' l₂) := by
   induction l₁ generalizing s with
@@ -453,5 +458,683 @@ theorem futs_step_new {s s' : St α β ε} {t : Tid} {i : Nat} {x : α} {st' : F
     obtain ⟨y, hf, rfl⟩ := step_finish h
     have : (setF s.futs j (.done (s.f y)))[i]? = none := by simp; omega
     simp_all
+
+/-! ## The inductive invariant -/
+
+def live : CPc α β ε → Bool
+  | .pull | .waitHead _ | .yielded _ | .submit _ | .drain => true
+  | _ => false
+
+def NoPending (futs : List (α × FState β ε)) : Prop :=
+  ∀ (i : Nat) x st, futs[i]? = some (x, st) → isPending st = false
+def NoActive (futs : List (α × FState β ε)) : Prop :=
+  ∀ (i : Nat) x st, futs[i]? = some (x, st) → isActive st = false
+def NoCancelled (futs : List (α × FState β ε)) : Prop :=
+  ∀ (i : Nat) x st, futs[i]? = some (x, st) → st ≠ .cancelled
+
+/-- what is known when an exception / normal end / close travels out of the `try` block -/
+def ExitInv (tk : TermKind) (f : α → Except ε β) (src₀ : List α) (ending : Option ε)
+    (s : St α β ε) (r : Option ε) (closed : Bool) : Prop :=
+  (closed = true → tk ≠ .nothing → NoPending s.futs) ∧
+  (closed = false →
+    match r with
+    | none => s.delivered.length = src₀.length
+    | some e => (ending = some e ∧ s.src = []) ∨ src₀[s.delivered.length]?.map f = some (.error e))
+
+/-- the part of the invariant that depends on the consumer's program point -/
+def PhaseInv (b : Nat) (ek : ExitKind) (tk : TermKind) (f : α → Except ε β) (src₀ : List α)
+    (ending : Option ε) (s : St α β ε) : Prop :=
+  match s.c with
+  | .pull => s.pulled = s.futs.length
+  | .waitHead x => s.pulled = s.futs.length + 1 ∧ src₀[s.futs.length]? = some x ∧ b ≤ s.q.length
+  | .yielded (some x) => s.pulled = s.futs.length + 1 ∧ src₀[s.futs.length]? = some x ∧ s.q.length < b
+  | .yielded none => s.pulled = s.futs.length ∧ s.src = []
+  | .submit x => s.pulled = s.futs.length + 1 ∧ src₀[s.futs.length]? = some x ∧ s.q.length < b
+  | .drain => s.pulled = s.futs.length ∧ s.src = []
+  | .cancel => True
+  | .exitWait r closed => ExitInv tk f src₀ ending s r closed
+  | .done r closed => ExitInv tk f src₀ ending s r closed ∧ (ek ≠ .leaveRunning → NoActive s.futs)
+
+structure Inv (w b : Nat) (ek : ExitKind) (tk : TermKind) (f : α → Except ε β) (src₀ : List α)
+    (ending : Option ε) (s : St α β ε) : Prop where
+  hw : s.workers = w
+  hb : s.buffer = b
+  hek : s.exitKind = ek
+  htk : s.termKind = tk
+  hf : s.f = f
+  hend : s.ending = ending
+  /-- the argument of future `i` is the `i`-th source item -/
+  args : ∀ (i : Nat) x st, s.futs[i]? = some (x, st) → src₀[i]? = some x
+  /-- a finished future holds `f` of its argument -/
+  doneVal : ∀ (i : Nat) x st, s.futs[i]? = some (x, st) → ∀ r, st = .done r → r = f x
+  /-- `q = [k, k+1, …, futs.length-1]` with `k = futs.length - q.length` (number of popped futures) -/
+  qRange : s.q = List.range' (s.futs.length - s.q.length) s.q.length
+  qLen : s.q.length ≤ s.futs.length
+  qBound : s.q.length ≤ b
+  /-- the delivered values are `f` of a prefix of the source, all `.ok` -/
+  deliv : (src₀.take s.delivered.length).map f = s.delivered.map .ok
+  /-- every pending future is still in `q` -/
+  pendInQ : ∀ (i : Nat) x st, s.futs[i]? = some (x, st) → st = .pending → s.futs.length - s.q.length ≤ i
+  pulledGe : s.futs.length ≤ s.pulled
+  pulledLe : s.pulled ≤ s.futs.length + 1
+  srcEq : s.src = src₀.drop s.pulled
+  srcLen : s.pulled + s.src.length = src₀.length
+  bufInv : s.futs.length ≤ s.delivered.length + b
+  startedLe : s.started + nPending s.futs ≤ s.futs.length
+  runLe : nRunning s.futs ≤ w
+  /-- before any error/close: everything popped was delivered, nothing is cancelled -/
+  liveInv : live s.c = true → s.futs.length = s.delivered.length + s.q.length ∧ NoCancelled s.futs
+  phase : PhaseInv b ek tk f src₀ ending s
+
+theorem inv_init (w b : Nat) (ek : ExitKind) (tk : TermKind) (f : α → Except ε β) (src₀ : List α)
+    (ending : Option ε) : Inv w b ek tk f src₀ ending (init w b ek tk f src₀ ending) := by
+  constructor <;> simp [init, nPending, nRunning, live, NoCancelled, PhaseInv]
+
+/-! ### helper lemmas for the preservation proof -/
+
+theorem forall_setF {P : Nat → α → FState β ε → Prop} {futs : List (α × FState β ε)} {i : Nat}
+    {x : α} {old new : FState β ε}
+    (hP : ∀ j y st, futs[j]? = some (y, st) → j ≠ i → P j y st) (h : futs[i]? = some (x, old))
+    (hnew : P i x new) : ∀ j y st, (setF futs i new)[j]? = some (y, st) → P j y st := by
+  intro j y st hj
+  rw [getElem?_setF h] at hj
+  split at hj
+  · injection hj with hj; injection hj with h1 h2; subst h1; subst h2; subst j; exact hnew
+  · exact hP _ _ _ hj ‹_›
+
+theorem forall_kill {P : Nat → α → FState β ε → Prop} {futs : List (α × FState β ε)}
+    (hP : ∀ j y st, futs[j]? = some (y, st) → isActive st = false → P j y st)
+    (hc : ∀ j y old, futs[j]? = some (y, old) → isActive old = true → P j y .cancelled) :
+    ∀ j y st, (futs.map kill)[j]? = some (y, st) → P j y st := by
+  intro j y st hj
+  obtain ⟨ha, h | ⟨rfl, old, ho, hao⟩⟩ := getElem?_kill hj
+  · exact hP _ _ _ h ha
+  · exact hc _ _ _ ho hao
+
+theorem noActive_kill (futs : List (α × FState β ε)) : NoActive (futs.map kill) :=
+  fun _ _ _ hj => (getElem?_kill hj).1
+
+theorem NoActive.noPending {futs : List (α × FState β ε)} (h : NoActive futs) : NoPending futs := by
+  intro j y st hj
+  have := h j y st hj
+  cases st <;> simp_all [isActive, isPending]
+
+theorem forall_append {P : Nat → α → FState β ε → Prop} {futs : List (α × FState β ε)} {x : α}
+    (hP : ∀ j y st, futs[j]? = some (y, st) → P j y st) (hnew : P futs.length x .pending) :
+    ∀ j y st, (futs ++ [(x, .pending)])[j]? = some (y, st) → P j y st := by
+  intro j y st hj
+  rw [List.getElem?_append] at hj
+  split at hj
+  · exact hP _ _ _ hj
+  · rename_i hlt
+    have : j - futs.length = 0 := by
+      cases hd : j - futs.length with
+      | zero => rfl
+      | succ n => simp [hd] at hj
+    simp [this] at hj
+    obtain ⟨rfl, rfl⟩ := hj
+    have : j = futs.length := by omega
+    subst this; exact hnew
+
+theorem getElem?_lt {l : List α} {i : Nat} {a : α} (h : l[i]? = some a) : i < l.length := by
+  cases hlt : decide (i < l.length) <;> simp_all
+
+theorem range_cons {q rest : List Nat} {i L : Nat} (hq : q = i :: rest)
+    (hr : q = List.range' (L - q.length) q.length) (hl : q.length ≤ L) :
+    i + rest.length + 1 = L ∧ rest = List.range' (L - rest.length) rest.length := by
+  subst hq
+  simp only [List.length_cons, List.range'_succ, List.cons.injEq] at hr hl
+  obtain ⟨h1, h2⟩ := hr
+  refine ⟨by omega, ?_⟩
+  have : L - rest.length = L - (rest.length + 1) + 1 := by omega
+  rw [this]; exact h2
+
+theorem range_snoc {q : List Nat} {L L' : Nat}
+    (hr : q = List.range' (L - q.length) q.length) (hl : q.length ≤ L) (hL : L' = L + 1) :
+    q ++ [L] = List.range' (L' - (q ++ [L]).length) (q ++ [L]).length := by
+  subst hL
+  simp only [List.length_append, List.length_singleton]
+  rw [List.range'_concat]
+  have : L + 1 - (q.length + 1) = L - q.length := by omega
+  rw [this, ← hr]
+  simp; omega
+
+theorem deliv_snoc {f : α → Except ε β} {src₀ : List α} {del : List β} {x : α} {v : β}
+    (h : (src₀.take del.length).map f = del.map .ok) (hx : src₀[del.length]? = some x)
+    (hv : f x = .ok v) :
+    (src₀.take (del ++ [v]).length).map f = (del ++ [v]).map .ok := by
+  simp [List.take_add_one, h, hx, hv]
+
+theorem drop_cons {l : List α} {n : Nat} {x : α} {rest : List α} (h : x :: rest = l.drop n) :
+    l[n]? = some x ∧ rest = l.drop (n + 1) := by
+  constructor
+  · have := List.getElem?_drop (xs := l) (i := n) (j := 0)
+    rw [← h] at this; simpa using this.symm
+  · have : (l.drop n).drop 1 = l.drop (n + 1) := by rw [List.drop_drop]
+    rw [← h] at this; simpa using this
+
+theorem PhaseInv_congr {b : Nat} {ek : ExitKind} {tk : TermKind} {f : α → Except ε β} {src₀ : List α}
+    {ending : Option ε} {s s' : St α β ε} (hc : s'.c = s.c) (hp : s'.pulled = s.pulled)
+    (hl : s'.futs.length = s.futs.length) (hq : s'.q.length = s.q.length) (hsrc : s'.src = s.src)
+    (hd : s'.delivered = s.delivered) (hpend : NoPending s.futs → NoPending s'.futs)
+    (hact : NoActive s.futs → NoActive s'.futs) (h : PhaseInv b ek tk f src₀ ending s) :
+    PhaseInv b ek tk f src₀ ending s' := by
+  unfold PhaseInv ExitInv at *
+  rw [hc]
+  split <;> simp_all
+
+/-! ### preservation: the consumer -/
+
+section
+variable {w b : Nat} {ek : ExitKind} {tk : TermKind} {f : α → Except ε β} {src₀ : List α}
+  {ending : Option ε} {s s' : St α β ε}
+
+theorem inv_consumer (hI : Inv w b ek tk f src₀ ending s) (h : step s .consumer = some s') :
+    Inv w b ek tk f src₀ ending s' := by
+  have hs := step_consumer h
+  clear h
+  have hph := hI.phase
+  have hb' := hI.hb
+  have hsl := hI.srcLen
+  have hqb := hI.qBound
+  have hql := hI.qLen
+  have hbuf := hI.bufInv
+  have hpg := hI.pulledGe
+  have hpl := hI.pulledLe
+  cases hs
+  case pullWait x rest hc hs hb =>
+    simp only [PhaseInv, hc] at hph
+    have hlv := hI.liveInv (by simp [hc, live])
+    obtain ⟨hx, hrest⟩ := drop_cons (hs ▸ hI.srcEq)
+    refine { hI with pulledGe := ?_, pulledLe := ?_, srcEq := hrest, srcLen := ?_, liveInv := ?_, phase := ?_ }
+    · simp <;> omega
+    · simp <;> omega
+    · simp [hs] at hsl ⊢; omega
+    · intro _; exact hlv
+    · simp only [PhaseInv]; refine ⟨by omega, ?_, by omega⟩
+      rw [← hph]; exact hx
+  case pullSubmit x rest hc hs hb =>
+    simp only [PhaseInv, hc] at hph
+    have hlv := hI.liveInv (by simp [hc, live])
+    obtain ⟨hx, hrest⟩ := drop_cons (hs ▸ hI.srcEq)
+    refine { hI with pulledGe := ?_, pulledLe := ?_, srcEq := hrest, srcLen := ?_, liveInv := ?_, phase := ?_ }
+    · simp <;> omega
+    · simp <;> omega
+    · simp [hs] at hsl ⊢; omega
+    · intro _; exact hlv
+    · simp only [PhaseInv]; refine ⟨by omega, ?_, by omega⟩
+      rw [← hph]; exact hx
+  case pullEnd hc hs he =>
+    simp only [PhaseInv, hc] at hph
+    have hlv := hI.liveInv (by simp [hc, live])
+    refine { hI with liveInv := ?_, phase := ?_ }
+    · intro _; exact hlv
+    · simp only [PhaseInv]; exact ⟨hph, hs⟩
+  case pullRaise e hc hs he =>
+    refine { hI with liveInv := ?_, phase := ?_ }
+    · intro h; simp [live] at h
+    · simp only [PhaseInv, ExitInv]
+      refine ⟨by simp, fun _ => .inl ⟨?_, hs⟩⟩
+      rw [← hI.hend]; exact he
+  case waitOk x i rest y v hc hq hf =>
+    simp only [PhaseInv, hc] at hph
+    obtain ⟨hlen, hnc⟩ := hI.liveInv (by simp [hc, live])
+    obtain ⟨hi, hr⟩ := range_cons hq hI.qRange hI.qLen
+    have hq' : s.q.length = rest.length + 1 := by simp [hq]
+    have hiD : i = s.delivered.length := by omega
+    have hy := hI.args _ _ _ hf
+    have hv := hI.doneVal _ _ _ hf _ rfl
+    refine { hI with qRange := hr, qLen := ?_, qBound := ?_, deliv := ?_, pendInQ := ?_, bufInv := ?_,
+                     liveInv := ?_, phase := ?_ }
+    · simp <;> omega
+    · simp <;> omega
+    · exact deliv_snoc hI.deliv (hiD ▸ hy) hv.symm
+    · intro j z st hj hst
+      have h1 := hI.pendInQ j z st hj hst
+      have : j ≠ i := by rintro rfl; rw [hf] at hj; subst hst; simp at hj
+      simp <;> omega
+    · simp <;> omega
+    · intro _; exact ⟨by simp <;> omega, hnc⟩
+    · simp only [PhaseInv]; exact ⟨hph.1, hph.2.1, by omega⟩
+  case waitErr x i rest y e hc hq hf =>
+    simp only [PhaseInv, hc] at hph
+    obtain ⟨hlen, hnc⟩ := hI.liveInv (by simp [hc, live])
+    obtain ⟨hi, hr⟩ := range_cons hq hI.qRange hI.qLen
+    have hq' : s.q.length = rest.length + 1 := by simp [hq]
+    have hiD : i = s.delivered.length := by omega
+    have hy := hI.args _ _ _ hf
+    have hv := hI.doneVal _ _ _ hf _ rfl
+    refine { hI with qRange := hr, qLen := ?_, qBound := ?_, pendInQ := ?_, liveInv := ?_, phase := ?_ }
+    · simp <;> omega
+    · simp <;> omega
+    · intro j z st hj hst
+      have h1 := hI.pendInQ j z st hj hst
+      have : j ≠ i := by rintro rfl; rw [hf] at hj; subst hst; simp at hj
+      simp <;> omega
+    · intro h; simp [live] at h
+    · simp only [PhaseInv, ExitInv]
+      refine ⟨by simp, fun _ => .inr ?_⟩
+      rw [← hiD, hy]; simp [hv]
+  case submit x hc =>
+    simp only [PhaseInv, hc] at hph
+    obtain ⟨hlen, hnc⟩ := hI.liveInv (by simp [hc, live])
+    refine { hI with args := ?_, doneVal := ?_, qRange := range_snoc hI.qRange hI.qLen (by simp), qLen := ?_,
+                     qBound := ?_, pendInQ := ?_, pulledGe := ?_, pulledLe := ?_, bufInv := ?_,
+                     startedLe := ?_, runLe := ?_, liveInv := ?_, phase := ?_ }
+    · exact forall_append hI.args hph.2.1
+    · exact forall_append hI.doneVal (by intro r hr; cases hr)
+    · simp <;> omega
+    · simp <;> omega
+    · refine forall_append (fun j z st hj hst => ?_) (fun _ => ?_)
+      · have := hI.pendInQ j z st hj hst; simp <;> omega
+      · simp <;> omega
+    · simp <;> omega
+    · simp <;> omega
+    · simp <;> omega
+    · have := hI.startedLe; simp [nPending_append]; omega
+    · have := hI.runLe; simpa [nRunning_append] using this
+    · intro _
+      refine ⟨by simp <;> omega, forall_append hnc (by simp)⟩
+    · simp only [PhaseInv]; simp <;> omega
+  case drainEmpty hc hq =>
+    simp only [PhaseInv, hc] at hph
+    obtain ⟨hlen, hnc⟩ := hI.liveInv (by simp [hc, live])
+    refine { hI with liveInv := ?_, phase := ?_ }
+    · intro h; simp [live] at h
+    · simp only [PhaseInv, ExitInv]
+      refine ⟨by simp, fun _ => ?_⟩
+      simp [hq, hph.2] at hlen hsl ⊢; omega
+  case drainOk i rest y v hc hq hf =>
+    simp only [PhaseInv, hc] at hph
+    obtain ⟨hlen, hnc⟩ := hI.liveInv (by simp [hc, live])
+    obtain ⟨hi, hr⟩ := range_cons hq hI.qRange hI.qLen
+    have hq' : s.q.length = rest.length + 1 := by simp [hq]
+    have hiD : i = s.delivered.length := by omega
+    have hy := hI.args _ _ _ hf
+    have hv := hI.doneVal _ _ _ hf _ rfl
+    refine { hI with qRange := hr, qLen := ?_, qBound := ?_, deliv := ?_, pendInQ := ?_, bufInv := ?_,
+                     liveInv := ?_, phase := ?_ }
+    · simp <;> omega
+    · simp <;> omega
+    · exact deliv_snoc hI.deliv (hiD ▸ hy) hv.symm
+    · intro j z st hj hst
+      have h1 := hI.pendInQ j z st hj hst
+      have : j ≠ i := by rintro rfl; rw [hf] at hj; subst hst; simp at hj
+      simp <;> omega
+    · simp <;> omega
+    · intro _; exact ⟨by simp <;> omega, hnc⟩
+    · simp only [PhaseInv]; exact hph
+  case drainErr i rest y e hc hq hf =>
+    simp only [PhaseInv, hc] at hph
+    obtain ⟨hlen, hnc⟩ := hI.liveInv (by simp [hc, live])
+    obtain ⟨hi, hr⟩ := range_cons hq hI.qRange hI.qLen
+    have hq' : s.q.length = rest.length + 1 := by simp [hq]
+    have hiD : i = s.delivered.length := by omega
+    have hy := hI.args _ _ _ hf
+    have hv := hI.doneVal _ _ _ hf _ rfl
+    refine { hI with qRange := hr, qLen := ?_, qBound := ?_, pendInQ := ?_, liveInv := ?_, phase := ?_ }
+    · simp <;> omega
+    · simp <;> omega
+    · intro j z st hj hst
+      have h1 := hI.pendInQ j z st hj hst
+      have : j ≠ i := by rintro rfl; rw [hf] at hj; subst hst; simp at hj
+      simp <;> omega
+    · intro h; simp [live] at h
+    · simp only [PhaseInv, ExitInv]
+      refine ⟨by simp, fun _ => .inr ?_⟩
+      rw [← hiD, hy]; simp [hv]
+  case cancelEmpty hc ht hq =>
+    refine { hI with liveInv := ?_, phase := ?_ }
+    · intro h; simp [live] at h
+    · simp only [PhaseInv, ExitInv]
+      refine ⟨fun _ _ j z st hj => ?_, by simp⟩
+      cases st <;> simp [isPending]
+      have := hI.pendInQ j z _ hj rfl
+      have := getElem?_lt hj
+      simp [hq] at *; omega
+  case cancelPending i rest y hc ht hq hf =>
+    obtain ⟨hi, hr⟩ := range_cons hq hI.qRange hI.qLen
+    have hq' : s.q.length = rest.length + 1 := by simp [hq]
+    refine { hI with args := ?_, doneVal := ?_, qRange := ?_, qLen := ?_, qBound := ?_, pendInQ := ?_,
+                     pulledGe := ?_, pulledLe := ?_, bufInv := ?_, startedLe := ?_, runLe := ?_,
+                     liveInv := ?_, phase := ?_ }
+    · exact forall_setF (fun j z st hj _ => hI.args j z st hj) hf (hI.args _ _ _ hf)
+    · exact forall_setF (fun j z st hj _ => hI.doneVal j z st hj) hf (by intro r hr; cases hr)
+    · simpa using hr
+    · simp <;> omega
+    · simp <;> omega
+    · refine forall_setF (fun j z st hj hne hst => ?_) hf (by intro h; cases h)
+      have := hI.pendInQ j z st hj hst; simp <;> omega
+    · simpa using hpg
+    · simpa using hpl
+    · simpa using hbuf
+    · have := hI.startedLe
+      have h1 := nPending_setF .cancelled hf
+      simp [isPending] at h1 ⊢; omega
+    · have := hI.runLe
+      have h2 := nRunning_setF .cancelled hf
+      simp [isRunning] at h2 ⊢; omega
+    · intro h; simp [hc, live] at h
+    · simp only [PhaseInv, hc]
+  case cancelSkip i rest hc ht hq hf =>
+    obtain ⟨hi, hr⟩ := range_cons hq hI.qRange hI.qLen
+    have hq' : s.q.length = rest.length + 1 := by simp [hq]
+    refine { hI with qRange := hr, qLen := ?_, qBound := ?_, pendInQ := ?_, liveInv := ?_, phase := ?_ }
+    · simp <;> omega
+    · simp <;> omega
+    · intro j z st hj hst
+      have h1 := hI.pendInQ j z st hj hst
+      have : j ≠ i := by rintro rfl; subst hst; exact hf _ hj
+      simp <;> omega
+    · intro h; simp [hc, live] at h
+    · simp only [PhaseInv, hc]
+  case cancelNothing hc ht =>
+    refine { hI with liveInv := ?_, phase := ?_ }
+    · intro h; simp [live] at h
+    · simp only [PhaseInv, ExitInv]
+      refine ⟨fun _ hne => ?_, by simp⟩
+      rw [← hI.htk] at hne; exact absurd ht hne
+  case cancelTerminate hc ht =>
+    refine { hI with args := ?_, doneVal := ?_, qRange := ?_, qLen := ?_, pendInQ := ?_,
+                     pulledGe := ?_, pulledLe := ?_, bufInv := ?_, startedLe := ?_, runLe := ?_,
+                     liveInv := ?_, phase := ?_ }
+    · exact forall_kill (fun j z st hj _ => hI.args j z st hj) (fun j z old hj _ => hI.args j z old hj)
+    · exact forall_kill (fun j z st hj _ => hI.doneVal j z st hj) (fun j z old hj _ r hr => by cases hr)
+    · simpa using hI.qRange
+    · simpa using hql
+    · intro j z st hj hst
+      have := noActive_kill _ j z st hj
+      subst hst; simp [isActive] at this
+    · simpa using hpg
+    · simpa using hpl
+    · simpa using hbuf
+    · have := hI.startedLe; simp [nPending_kill]; omega
+    · simp [nRunning_kill]
+    · intro h; simp [live] at h
+    · simp only [PhaseInv, ExitInv]
+      exact ⟨fun _ _ => (noActive_kill _).noPending, by simp⟩
+  case exitWaitAll r closed hc hk hall =>
+    simp only [PhaseInv, hc] at hph
+    refine { hI with liveInv := ?_, phase := ?_ }
+    · intro h; simp [live] at h
+    · simp only [PhaseInv]
+      refine ⟨hph, fun _ j z st hj => ?_⟩
+      have := List.all_eq_true.mp hall _ (List.mem_of_getElem? hj)
+      simpa using this
+  case exitKill r closed hc hk =>
+    simp only [PhaseInv, hc] at hph
+    refine { hI with args := ?_, doneVal := ?_, qRange := ?_, qLen := ?_, pendInQ := ?_,
+                     pulledGe := ?_, pulledLe := ?_, bufInv := ?_, startedLe := ?_, runLe := ?_,
+                     liveInv := ?_, phase := ?_ }
+    · exact forall_kill (fun j z st hj _ => hI.args j z st hj) (fun j z old hj _ => hI.args j z old hj)
+    · exact forall_kill (fun j z st hj _ => hI.doneVal j z st hj) (fun j z old hj _ r hr => by cases hr)
+    · simpa using hI.qRange
+    · simpa using hql
+    · intro j z st hj hst
+      have := noActive_kill _ j z st hj
+      subst hst; simp [isActive] at this
+    · simpa using hpg
+    · simpa using hpl
+    · simpa using hbuf
+    · have := hI.startedLe; simp [nPending_kill]; omega
+    · simp [nRunning_kill]
+    · intro h; simp [live] at h
+    · simp only [PhaseInv]
+      exact ⟨⟨fun _ _ => (noActive_kill _).noPending, hph.2⟩, fun _ => noActive_kill _⟩
+  case exitLeave r closed hc hk =>
+    simp only [PhaseInv, hc] at hph
+    refine { hI with liveInv := ?_, phase := ?_ }
+    · intro h; simp [live] at h
+    · simp only [PhaseInv]
+      refine ⟨hph, fun hne => ?_⟩
+      rw [← hI.hek] at hne; exact absurd hk hne
+
+/-! ### preservation: the environment (`resume`, `close`) and the pool (`start`, `finish`) -/
+
+theorem inv_resume (hI : Inv w b ek tk f src₀ ending s) (h : step s .resume = some s') :
+    Inv w b ek tk f src₀ ending s' := by
+  have hph := hI.phase
+  rcases step_resume h with ⟨x, hc, rfl⟩ | ⟨hc, rfl⟩
+  · simp only [PhaseInv, hc] at hph
+    have hlv := hI.liveInv (by simp [hc, live])
+    refine { hI with liveInv := fun _ => hlv, phase := ?_ }
+    simp only [PhaseInv]; exact hph
+  · simp only [PhaseInv, hc] at hph
+    have hlv := hI.liveInv (by simp [hc, live])
+    refine { hI with liveInv := fun _ => hlv, phase := ?_ }
+    simp only [PhaseInv]; exact hph
+
+theorem inv_close (hI : Inv w b ek tk f src₀ ending s) (h : step s .close = some s') :
+    Inv w b ek tk f src₀ ending s' := by
+  obtain ⟨x, hc, rfl⟩ := step_close h
+  refine { hI with liveInv := ?_, phase := ?_ }
+  · intro h; simp [live] at h
+  · simp only [PhaseInv]
+
+theorem inv_start (hI : Inv w b ek tk f src₀ ending s) (h : step s .start = some s') :
+    Inv w b ek tk f src₀ ending s' := by
+  obtain ⟨i, x, hnr, _, hf, rfl⟩ := step_start h
+  have h1 := nPending_setF .running hf
+  have h2 := nRunning_setF .running hf
+  simp [isPending, isRunning] at h1 h2
+  refine { hI with args := ?_, doneVal := ?_, qRange := ?_, qLen := ?_, pendInQ := ?_,
+                   pulledGe := ?_, pulledLe := ?_, bufInv := ?_, startedLe := ?_, runLe := ?_,
+                   liveInv := ?_, phase := ?_ }
+  · exact forall_setF (fun j z st hj _ => hI.args j z st hj) hf (hI.args _ _ _ hf)
+  · exact forall_setF (fun j z st hj _ => hI.doneVal j z st hj) hf (by intro r hr; cases hr)
+  · simpa using hI.qRange
+  · simpa using hI.qLen
+  · refine forall_setF (fun j z st hj _ hst => ?_) hf (by intro h; cases h)
+    have := hI.pendInQ j z st hj hst; simpa using this
+  · simpa using hI.pulledGe
+  · simpa using hI.pulledLe
+  · simpa using hI.bufInv
+  · have := hI.startedLe; simp; omega
+  · have := hI.hw; rw [numRunning_eq] at hnr; simp; omega
+  · intro hl
+    obtain ⟨hlen, hnc⟩ := hI.liveInv hl
+    exact ⟨by simpa using hlen, forall_setF (fun j z st hj _ => hnc j z st hj) hf (by simp)⟩
+  · refine PhaseInv_congr (s := s) rfl rfl (by simp) rfl rfl rfl (fun hp => ?_) (fun ha => ?_) hI.phase
+    · exact forall_setF (fun j z st hj _ => hp j z st hj) hf (by simp [isPending])
+    · have := ha _ _ _ hf; simp [isActive] at this
+
+theorem inv_finish {i : Nat} (hI : Inv w b ek tk f src₀ ending s) (h : step s (.finish i) = some s') :
+    Inv w b ek tk f src₀ ending s' := by
+  obtain ⟨x, hf, rfl⟩ := step_finish h
+  have h1 := nPending_setF (.done (s.f x)) hf
+  have h2 := nRunning_setF (.done (s.f x)) hf
+  simp [isPending, isRunning] at h1 h2
+  refine { hI with args := ?_, doneVal := ?_, qRange := ?_, qLen := ?_, pendInQ := ?_,
+                   pulledGe := ?_, pulledLe := ?_, bufInv := ?_, startedLe := ?_, runLe := ?_,
+                   liveInv := ?_, phase := ?_ }
+  · exact forall_setF (fun j z st hj _ => hI.args j z st hj) hf (hI.args _ _ _ hf)
+  · refine forall_setF (fun j z st hj _ => hI.doneVal j z st hj) hf ?_
+    intro r hr; injection hr with hr; rw [← hr, hI.hf]
+  · simpa using hI.qRange
+  · simpa using hI.qLen
+  · refine forall_setF (fun j z st hj _ hst => ?_) hf (by intro h; cases h)
+    have := hI.pendInQ j z st hj hst; simpa using this
+  · simpa using hI.pulledGe
+  · simpa using hI.pulledLe
+  · simpa using hI.bufInv
+  · have := hI.startedLe; simp; omega
+  · have := hI.runLe; simp; omega
+  · intro hl
+    obtain ⟨hlen, hnc⟩ := hI.liveInv hl
+    exact ⟨by simpa using hlen, forall_setF (fun j z st hj _ => hnc j z st hj) hf (by simp)⟩
+  · refine PhaseInv_congr (s := s) rfl rfl (by simp) rfl rfl rfl (fun hp => ?_) (fun ha => ?_) hI.phase
+    · exact forall_setF (fun j z st hj _ => hp j z st hj) hf (by simp [isPending])
+    · exact forall_setF (fun j z st hj _ => ha j z st hj) hf (by simp [isActive])
+
+/-- the invariant is preserved by every step of every thread -/
+theorem inv_step {t : Tid} (hI : Inv w b ek tk f src₀ ending s) (h : step s t = some s') :
+    Inv w b ek tk f src₀ ending s' := by
+  cases t with
+  | consumer => exact inv_consumer hI h
+  | resume => exact inv_resume hI h
+  | close => exact inv_close hI h
+  | start => exact inv_start hI h
+  | finish i => exact inv_finish hI h
+
+theorem inv_run {sched : List Tid} (hI : Inv w b ek tk f src₀ ending s) (h : run s sched = some s') :
+    Inv w b ek tk f src₀ ending s' := by
+  induction sched generalizing s with
+  | nil => simp [run] at h; subst h; exact hI
+  | cons t ts ih =>
+    simp only [run] at h
+    split at h
+    · exact ih (inv_step hI ‹_›) h
+    · cases h
+
+theorem inv_reachable (h : Reachable w b ek tk f src₀ ending s) : Inv w b ek tk f src₀ ending s := by
+  obtain ⟨sched, hs⟩ := h
+  exact inv_run (inv_init ..) hs
+
+/-! ## Deadlock freedom -/
+
+/-- if some future is pending or running, the pool can move -/
+theorem pool_can_move (hw : 1 ≤ s.workers)
+    (h : ∃ (i : Nat) (x : α) (st : FState β ε), s.futs[i]? = some (x, st) ∧ isActive st = true) :
+    (∃ s', step s .start = some s') ∨ (∃ i s', step s (.finish i) = some s') := by
+  by_cases hr : ∃ (j : Nat) (y : α), s.futs[j]? = some (y, .running)
+  · obtain ⟨j, y, hj⟩ := hr
+    exact .inr ⟨j, by simp [step, hj]⟩
+  · obtain ⟨i, x, st, hi, ha⟩ := h
+    have hst : st = .pending := by
+      cases st with
+      | pending => rfl
+      | running => exact absurd ⟨i, x, hi⟩ hr
+      | done r => simp [isActive] at ha
+      | cancelled => simp [isActive] at ha
+    subst hst
+    have hnr : numRunning s = 0 := by
+      simp only [numRunning, List.length_eq_zero_iff, List.filter_eq_nil_iff]
+      rintro ⟨y, st'⟩ hmem hrun
+      obtain ⟨j, hj⟩ := List.mem_iff_getElem?.mp hmem
+      cases st' <;> simp [isRunning] at hrun
+      exact hr ⟨j, y, hj⟩
+    cases hfp : firstPending s.futs with
+    | none =>
+      simp only [firstPending, List.findIdx?_eq_none_iff] at hfp
+      have := hfp _ (List.mem_of_getElem? hi)
+      simp [isPending] at this
+    | some k =>
+      left
+      have : numRunning s < s.workers := by omega
+      simp [step, hfp, this]
+
+theorem head_progress (hI : Inv w b ek tk f src₀ ending s) (hw : 1 ≤ w) (hlive : live s.c = true)
+    {i : Nat} {rest : List Nat} (hq : s.q = i :: rest) :
+    (∃ y r, s.futs[i]? = some (y, .done r)) ∨
+    (∃ s', step s .start = some s') ∨ (∃ i s', step s (.finish i) = some s') := by
+  obtain ⟨hi, _⟩ := range_cons hq hI.qRange hI.qLen
+  obtain ⟨_, hnc⟩ := hI.liveInv hlive
+  have hlt : i < s.futs.length := by omega
+  have hget := List.getElem?_eq_getElem hlt
+  rcases hfi : s.futs[i] with ⟨y, st⟩
+  rw [hfi] at hget
+  have hws : 1 ≤ s.workers := by rw [hI.hw]; exact hw
+  cases st with
+  | pending => exact .inr (pool_can_move hws ⟨i, y, _, hget, rfl⟩)
+  | running => exact .inr (pool_can_move hws ⟨i, y, _, hget, rfl⟩)
+  | done r => exact .inl ⟨y, r, hget⟩
+  | cancelled => exact absurd rfl (hnc _ _ _ hget)
+
+/-- unless the generator is suspended at a `yield` or finished, some thread can move -/
+theorem no_deadlock_inv (hI : Inv w b ek tk f src₀ ending s) (hw : 1 ≤ w) (hb : 1 ≤ b)
+    (hnd : isDone s = false) (hny : ∀ x, s.c ≠ .yielded x) :
+    (∃ s', step s .consumer = some s') ∨ (∃ s', step s .start = some s') ∨
+      (∃ i s', step s (.finish i) = some s') := by
+  have hph := hI.phase
+  have hws : 1 ≤ s.workers := by rw [hI.hw]; exact hw
+  cases hc : s.c with
+  | pull =>
+    left
+    cases hsrc : s.src <;> cases he : s.ending <;> simp [step, hc, hsrc, he]
+  | waitHead x =>
+    simp only [PhaseInv, hc] at hph
+    cases hq : s.q with
+    | nil => simp [hq] at hph; omega
+    | cons i rest =>
+      rcases head_progress hI hw (by simp [hc, live]) hq with ⟨y, r, hf⟩ | hpool
+      · left
+        cases r <;> simp [step, hc, headDone, hq, hf]
+      · exact .inr hpool
+  | yielded x => exact absurd hc (hny x)
+  | submit x => left; simp [step, hc]
+  | drain =>
+    cases hq : s.q with
+    | nil => left; simp [step, hc, hq]
+    | cons i rest =>
+      rcases head_progress hI hw (by simp [hc, live]) hq with ⟨y, r, hf⟩ | hpool
+      · left
+        cases r <;> simp [step, hc, headDone, hq, hf]
+      · exact .inr hpool
+  | cancel =>
+    left
+    cases htk : s.termKind with
+    | cancelQueued =>
+      cases hq : s.q with
+      | nil => simp [step, hc, htk, hq]
+      | cons i rest =>
+        simp only [step, hc, htk, hq]
+        split <;> simp
+    | nothing => simp [step, hc, htk]
+    | terminatePool => simp [step, hc, htk]
+  | exitWait r cl =>
+    cases hek : s.exitKind with
+    | waitAll =>
+      by_cases hex : ∃ (j : Nat) (y : α) (st : FState β ε), s.futs[j]? = some (y, st) ∧ isActive st = true
+      · exact .inr (pool_can_move hws hex)
+      · left
+        have hall : s.futs.all (fun p => !isActive p.2) = true := by
+          rw [List.all_eq_true]
+          rintro ⟨y, st⟩ hmem
+          obtain ⟨j, hj⟩ := List.mem_iff_getElem?.mp hmem
+          cases ha : isActive st
+          · rfl
+          · exact absurd ⟨j, y, st, hj, ha⟩ hex
+        simp [step, hc, hek, hall]
+    | killAll => left; simp [step, hc, hek]
+    | leaveRunning => left; simp [step, hc, hek]
+  | done r cl => simp [isDone, hc] at hnd
+
+/-! ## Reachability is closed under steps and runs -/
+
+theorem Reachable.run {sched : List Tid} (h : Reachable w b ek tk f src₀ ending s)
+    (hr : run s sched = some s') : Reachable w b ek tk f src₀ ending s' := by
+  obtain ⟨l, hl⟩ := h
+  exact ⟨l ++ sched, by rw [run_append, hl]; simpa using hr⟩
+
+theorem Reachable.step {t : Tid} (h : Reachable w b ek tk f src₀ ending s)
+    (hs : step s t = some s') : Reachable w b ek tk f src₀ ending s' :=
+  h.run (sched := [t]) (by simp [Lpm.run, hs])
+
+/-- a future that is `cancelled` stays `cancelled` along every run -/
+theorem cancelled_run {sched : List Tid} {i : Nat} {x : α} (h : Lpm.run s sched = some s')
+    (hi : s.futs[i]? = some (x, .cancelled)) : s'.futs[i]? = some (x, .cancelled) := by
+  induction sched generalizing s with
+  | nil => simp [Lpm.run] at h; subst h; exact hi
+  | cons t ts ih =>
+    simp only [Lpm.run] at h
+    split at h
+    · rename_i s₁ hs
+      obtain ⟨st', h1, htr⟩ := futs_step hs hi
+      refine ih h ?_
+      rcases htr with rfl | ⟨_, h2, _⟩ | ⟨_, h2, _⟩ | ⟨_, _, _, h2, _⟩ | ⟨_, _, h2, _⟩
+      · exact h1
+      · cases h2
+      · cases h2
+      · cases h2
+      · simp [isActive] at h2
+    · cases h
+
+theorem mem_of_forall_idx {P : FState β ε → Prop} {futs : List (α × FState β ε)}
+    (h : ∀ (i : Nat) x st, futs[i]? = some (x, st) → P st) : ∀ p ∈ futs, P p.2 := by
+  rintro ⟨x, st⟩ hmem
+  obtain ⟨j, hj⟩ := List.mem_iff_getElem?.mp hmem
+  exact h j x st hj
+
+end
 
 end LazyDs.Lpm
